@@ -18,6 +18,9 @@ pub struct Case {
 pub struct Unit {
     pub cfg: SrvConfig,
     pub mismatch: Mismatch,
+    /// responses of the coordination RPCs as separate explorer actions (thorough)
+    #[serde(default)]
+    pub split: bool,
 }
 
 pub fn test_case(c: &Case) -> (Result<CaseInfo, Fail>, Obs) {
@@ -65,7 +68,7 @@ fn run_unit(u: &Unit, emit: &mut dyn FnMut(UnitResult)) {
     let mut script: Vec<usize> = vec![];
     let mut count = 0;
     loop {
-        let case = Case { cfg: u.cfg.clone(), plan: Plan { script: script.clone(), mismatch: Some(u.mismatch.clone()), ..Default::default() } };
+        let case = Case { cfg: u.cfg.clone(), plan: Plan { script: script.clone(), mismatch: Some(u.mismatch.clone()), split_replies: u.split, ..Default::default() } };
         let (r, obs) = test_case(&case);
         match r {
             Ok(i) => emit(UnitResult::Ok(i)),
@@ -73,7 +76,7 @@ fn run_unit(u: &Unit, emit: &mut dyn FnMut(UnitResult)) {
         }
         count += 1;
         match next_script(&script, &obs.branching, 0) {
-            Some(s) if count < 400 => script = s,
+            Some(s) if count < if u.split { 3000 } else { 400 } => script = s,
             _ => break,
         }
     }
@@ -81,20 +84,20 @@ fn run_unit(u: &Unit, emit: &mut dyn FnMut(UnitResult)) {
 
 pub fn units(tier: Tier, seed: u64) -> Vec<Unit> {
     let mut v = vec![];
-    for n in [2usize, 3] {
+    for (n, split) in if tier == Tier::Thorough { vec![(2usize, false), (3, false), (2, true), (3, true)] } else { vec![(2usize, false), (3, false)] } {
         for cfg in configs(n, (seed as usize) % 2, seed, tier == Tier::Thorough || n == 2) {
             let leader = cfg.leader;
             for party in 0..n {
                 if party != leader {
                     for kind in 0..3u8 {
-                        v.push(Unit { cfg: cfg.clone(), mismatch: Mismatch::Program { party, kind } });
+                        v.push(Unit { cfg: cfg.clone(), mismatch: Mismatch::Program { party, kind }, split });
                     }
                     if n == 3 {
                         let other = (0..n).find(|p| *p != leader && *p != party).unwrap();
-                        v.push(Unit { cfg: cfg.clone(), mismatch: Mismatch::Leader { party, claims: other } });
+                        v.push(Unit { cfg: cfg.clone(), mismatch: Mismatch::Leader { party, claims: other }, split });
                     }
                 }
-                v.push(Unit { cfg: cfg.clone(), mismatch: Mismatch::IllTyped { party } });
+                v.push(Unit { cfg: cfg.clone(), mismatch: Mismatch::IllTyped { party }, split });
             }
         }
     }
@@ -106,7 +109,7 @@ pub fn run(tier: Tier, seed: u64) -> i32 {
         return run_worker(units(tier, seed), k, of, run_unit);
     }
     let ctx = Ctx::new("C16", tier, seed, "exploration");
-    ctx.set_rule("exhaustive DFS over arrival orders of the schedule calls and delivery orders of the coordination RPCs (<= 400 paths per unit) for: program-text mismatch at each follower (n=2,3; three kinds of difference: appended comment, changed operator, same characters with a line break moved into a comment), leader-index mismatch at a follower naming another follower (n=3), ill-typed program at each party; oracle: the schedule calls of the leader and of the mismatching follower (resp. of the party with the ill-typed program) return an error, no destination is sent a successful result, zero MPC messages are issued by the in-process client, no state machine panics; other followers may linger; distinct by hash of (configuration, mismatch, path)");
+    ctx.set_rule("exhaustive DFS over arrival orders of the schedule calls and delivery orders of the coordination RPCs (<= 400 paths per unit; thorough: also with the RPC responses as separate actions, <= 3000 paths per unit) for: program-text mismatch at each follower (n=2,3; three kinds of difference: appended comment, changed operator, same characters with a line break moved into a comment), leader-index mismatch at a follower naming another follower (n=3), ill-typed program at each party; oracle: the schedule calls of the leader and of the mismatching follower (resp. of the party with the ill-typed program) return an error, no destination is sent a successful result, zero MPC messages are issued by the in-process client, no state machine panics; other followers may linger; distinct by hash of (configuration, mismatch, path)");
     let n_units = units(tier, seed).len();
     ctx.extra("work_units", json!(n_units));
     run_parent(&ctx, "C16", n_units);
